@@ -63,7 +63,9 @@ MANIFEST = dict(
          'c13_join_of_parts: both name helpers as generated objects, _get_file_parts o _join_file_parts = id on listable keys and '
          '_join_file_parts o _get_file_parts = id on names in listed form, with the trailing-dot class carved out exactly (refuted by witness); '
          'c13_property: all parts in one statement under the single hypothesis c13_hyps (a boolean on the fourteen generated objects, '
-         'discharged for today\'s source on every run).',
+         'discharged for today\'s source on every run); c13_generated_machine_step / _history: the state machine assembled from the generated '
+         'objects (write from the placement table, write_dirfile / reopen as the translated programs) answers as the hand-written machine '
+         'whenever it answers, so the history theorem holds for it; the machine correspondence runs plain histories through it.',
     note='The model SM/Vpk.v (step/run), the codec Fmt/VpkDir.v/VpkDirV2.v, Fmt/VpkName.v and the string primitives of Fmt/VpkArchName.v are '
          'hand-written and tied to srctools.vpk by differential runs on every run (not by proof): histories on real temp directories compared '
          'byte-exactly, decode of written/damaged/version-2 files, the archive files really opened by the three get_arch_filename sites, name '
